@@ -50,9 +50,11 @@ ASSUMPTIONS = [
     "array shapes are observed with numpy integer arrays through implementation=(einsum, tensordot) "
     "recorders; other backends not exercised",
 ]
-RULE = ("random networks over index kinds {bond,hyper,dangling,out1,outk,all,repeated,batch} x random/"
+RULE = ("(a) random networks over index kinds {bond,hyper,dangling,out1,outk,all,repeated,batch} x random/"
         "caterpillar/balanced trees x 0-3 removed indices (slice or project, any kind); non-trivial = "
-        ">= 3 tensors and (a removed index or a hyper/repeated/dangling feature); distinct by content hash")
+        ">= 3 tensors and (a removed index or a hyper/repeated/dangling feature); (b) trees produced by random histories of "
+        "public transformations (copy, anneal, reconfigure, slice/project/unslice, ...), checked after every prefix on the "
+        "live tree and on trees kept aside; distinct by content hash")
 
 
 def _apply_removed(tree, net, removed):
@@ -228,13 +230,81 @@ def check_case(ctx, drv, case):
     return True
 
 
+def history_case(ctx, drv, case):
+    """Trees produced by *histories* of public transformations (copies, annealing, reconfiguration,
+    slice / project / unslice …): after every prefix the figures the live tree reports through its
+    public getters must equal the definition recomputed from the network alone, and the shapes of
+    the intermediates actually produced must have the reported sizes."""
+    from . import c04, treehist
+    net, tree = c04.build(case)
+    prefix = []
+    aside = []
+    for op in case["history"]:
+        try:
+            old = tree
+            tree, _ = treehist.apply_op(tree, net, op)
+            if tree is not old:
+                aside.append(old)
+        except treehist.Rejected:
+            continue
+        except treehist.Aborted as e:
+            tree = e.tree
+        except Exception as e:
+            ctx.violation({"site": "tree-history", "kind": "raised:" + type(e).__name__},
+                          {"hcase": {**case, "history": prefix + [op]}, "error": repr(e)[:200]},
+                          f"{op['k']} raised {type(e).__name__}")
+            return False
+        prefix.append(op)
+        ctx.count("hist-op:" + op["k"])
+        for which, t in [("live", tree)] + [("aside", a) for a in aside[-2:]]:
+            if not t.is_complete():
+                continue
+            fig = c04.figures(t, net)
+            bt = gen.bt_of_real(t)
+            us = gen.unsym(net)
+            removed = [us[i] for i in t.sliced_inds]
+            sliced = [us[i] for i, si in t.sliced_inds.items() if si.project is None]
+            spec = refimpl.spec_costs(net, bt, removed, sliced)
+            bad = None
+            for k in ("flops", "write", "size", "mult"):
+                if fig[k] != spec[k]:
+                    bad = (k, fig[k], spec[k])
+            if bad is None:
+                for r in spec["rows"]:
+                    f = fig["rows"].get(tuple(r["leaves"]))
+                    if f is None:
+                        continue
+                    if f["size"] != r["size"] or ("flops" in f and f["flops"] != r["flops"]) or f["legs"] != r["legs"]:
+                        bad = ("node", f, r)
+                        break
+            if bad is None and which == "live":
+                tc = t.copy()
+                shapes_bad, nprod = observed_shapes(tc, net, {"order_seed": op["seed"]})
+                ctx.count("intermediates_observed", nprod)
+                if shapes_bad:
+                    bad = ("shape", shapes_bad[:2])
+            ctx.case({"net": case["net"], "tree": case["tree"], "prefix": prefix, "which": which},
+                     nontrivial=len(prefix) >= 1, sample=False)
+            if bad is not None:
+                ctx.violation({"site": "tree-history", "kind": bad[0], "which": which},
+                              {"hcase": {**case, "history": list(prefix)}, "observed_vs_spec": str(bad)[:600]},
+                              f"after {[o['k'] for o in prefix]} the {which} tree reports {bad[0]} different from the definition")
+                return False
+    return True
+
+
 def run(ctx, drv):
+    from . import c04
     ncases = 500 if ctx.tier == "quick" else 8000
     for _ in range(ncases):
         if ctx.time_left() < 5:
             break
         case = gen_case(ctx.rng, ctx.tier)
         check_case(ctx, drv, case)
+    for _ in range(150 if ctx.tier == "quick" else 2500):
+        if ctx.time_left() < 5:
+            break
+        history_case(ctx, drv, c04.make_case(ctx.rng, ctx.tier))
 
 
 def search(ctx):
@@ -257,6 +327,11 @@ def search(ctx):
 
 
 def replay(ctx, obj):
+    if "hcase" in obj:
+        from . import common
+        c2 = common.Ctx(PROP, "quick", 0)
+        c2.violation = lambda *a, **k: True
+        return history_case(c2, None, obj["hcase"])
     case = obj["case"]
     obs, tree, net = observe(case)
     removed = [ix for ix, _ in case["removed"]]
